@@ -318,6 +318,7 @@ structure AState where
   closed : Nat := 0             -- sum of the lengths of the slabs already cut (unbounded)
   nslabs : Nat := 0
   pre : Nat := 0                -- `PrefixSlabWeight.prefix` of the slab being cut (u64 case)
+  preClosed : Nat := 0          -- sum of the prefixes of the closed slabs (unbounded)
   agg : Agg := {}               -- `SlabAgg` of the slab being cut
   aggs : List Agg := []         -- weights of the closed slabs, in order (delta)
   deriving Repr
@@ -368,7 +369,7 @@ def acctStep (w : Weight) (st : AState) (count : Nat) (v : Option Int) : Res ASt
     | .ok st =>
       if st.slabSegs = 32 then
         .ok { st with closed := st.closed + st.slabLen, nslabs := st.nslabs + 1, slabLen := 0, slabSegs := 0,
-                      pre := 0, agg := {}, aggs := st.aggs ++ [st.agg] }
+                      pre := 0, preClosed := st.preClosed + st.pre, agg := {}, aggs := st.aggs ++ [st.agg] }
       else .ok st
     | o => o
 
@@ -411,6 +412,9 @@ where
     | .delta lo hi =>
       let aggs := if st.slabSegs > 0 then st.aggs ++ [st.agg] else st.aggs
       if domainCheck lo hi aggs 0 then .ok total else .err .value
+    | .prefixU limit =>
+      -- `Idx::from_weights`: the B-tree merges the slab weights with `+=` in the `u64` accumulator
+      if ¬ (st.preClosed + st.pre < limit) then .panic .narrowing else .ok total
     | _ => .ok total
 
 /-- `Column::load_with` for an RLE value type: the accepted segments (run form) or the failure, in
